@@ -6,10 +6,10 @@ from . import core, util
 
 def c14(ck):
     quick = ck.tier == "quick"
-    mc = core.mc_or_die("MC_ElfReader", "MC_ElfReader", workers=4, coverage=True, timeout=900)
+    mc = util.mc_design(ck, "MC_ElfReader", "MC_ElfReader", "every abstract ELF (presence / readability of each table and range the reader follows, terminated or unterminated dynamic array, identity or shifted virtual addresses, 64- and 32-bit) through the strategy steps; invariants Total, StepsAreFunction, SonameIsTheImages", workers=4, coverage=True, timeout=900)
     util.vacuity(ck, mc, "ElfReader", ["TryPhNote", "TrySecNote", "TryText", "TryPhSoname", "TrySecSoname"])
-    ck.add_mc(mc, "every abstract ELF (presence / readability of each table and range the reader follows, 64- and 32-bit) through the strategy steps; invariants Total, StepsAreFunction")
-    cases = mc["printed"].get("REPLAY", [])
+    exp = core.run_tlc("MC_ElfReader", "MC_ElfReader_export", workers=4, timeout=900)
+    cases = exp["printed"].get("REPLAY", [])
     if not cases:
         raise core.ToolError("MC_ElfReader exported no cases")
     inp = os.path.join(ck.work, "elf.in")
